@@ -13,6 +13,17 @@ WIDTHS = [1, 2, 3, 4, 7, 8, 9, 12, 15, 16, 17, 24, 31, 32, 33, 48, 63, 64]
 DOC_WORDS = ["alpha", "note", "units: m/s", "see above", "x", "[0, 1]", "TODO", "the value", "a  b", "end."]
 
 
+from fractions import Fraction as Fraction_
+
+FLOAT_EXPRS = [("10 ** -3", [1, 1000]), ("3 ** -1", [1, 3]), ("2 ** -2", [1, 4]), ("1 / 10 ** 3", [1, 1000]), ("1e-3", [1, 1000]), ("(-2) ** 3", [-8, 1]),
+               ("2.5e1", [25, 1]), ("0x10 / 0b100", [4, 1]), ("-(1 / 8)", [-1, 8]), ("(10 ** -3) * (10 ** 3)", [1, 1]), ("1.5 * (2 ** -1)", [3, 4]),
+               ("(-3) ** -3", [-1, 27]), ("7 ** -2", [1, 49]), ("(1 / 3) ** 2", [1, 9]), ("(2 / 3) ** -2", [9, 4]), ("10 ** -1 + 10 ** -2", [11, 100]),
+               ("1_0.0_0", [10, 1]), (".5", [1, 2]), ("5.", [5, 1]), ("1E+2", [100, 1]), ("12e-1", [6, 5])]
+INT_EXPRS = [("2 ** 3", [8, 1]), ("10 ** 2 - 1", [99, 1]), ("(2 ** 4) / 2", [8, 1]), ("0x0F & 0b0110", [6, 1]), ("(1 + 2) * 3", [9, 1]), ("0o17 | 0x10", [31, 1]),
+             ("6 ^ 3", [5, 1]), ("(2 ** -1) * 4", [2, 1]), ("10 % 4", [2, 1]), ("-(-7)", [7, 1]), ("+3", [3, 1]), ("(10 ** -2) * 300", [3, 1]),
+             ("1_000 / 1_0", [100, 1]), ("9 ** (1 / 2)", [3, 1])]
+
+
 def gen_prim(rng: random.Random, allow_bool: bool = True) -> list:
     r = rng.random()
     if r < 0.12 and allow_bool:
@@ -183,6 +194,12 @@ class WorkspaceGen:
             v = rng.random() < 0.5
             return ["c", t, name, "true" if v else "false", v]
         lo, hi = T.value_range(t)
+        if rng.random() < 0.2:
+            # initializers that are small constant expressions (negative exponents, mixed literal forms): the value is exact
+            table = FLOAT_EXPRS if t[0] == "f" else INT_EXPRS
+            lit, val = rng.choice(table)
+            if lo <= Fraction_(val[0], val[1]) <= hi:
+                return ["c", t, name, lit, list(val)]
         if t[0] == "f":
             num = rng.choice([0, 1, -1, 3, 1000, -250]); den = rng.choice([1, 2, 4, 8])
             lit = "%d.0 / %d.0" % (num, den) if den != 1 else "%d.0" % num
